@@ -28,6 +28,26 @@ func checkC09Dispatch(c *Ctx, n int) {
 		cs := g.genCase()
 		cs.Env = nil
 		cs.CmdHandler = r.Intn(2) == 0
+		// a quarter of the cases: a list option that is not given on the command line and whose
+		// environment variable / default tags carry one element that does not convert, not in the
+		// last place - a bad value like any other: nothing may run
+		faulty := ""
+		if r.Intn(4) == 0 && cs.Build[0].Struct != nil {
+			elems := [][]string{{"80", "x", "443"}, {"x", "80"}, {"1", "2", "1.5", "4"}}[r.Intn(3)]
+			tag := `long:"zz-ports"`
+			if r.Intn(2) == 0 {
+				tag += ` env:"VFC09" env-delim:","`
+				cs.Env = []EnvVar{{"VFC09", strings.Join(elems, ",")}}
+				faulty = "environment value " + strings.Join(elems, ",")
+			} else {
+				for _, e := range elems {
+					tag += " " + quoteTag("default", e)
+				}
+				faulty = fmt.Sprintf("default tags %q", elems)
+			}
+			st := cs.Build[0].Struct
+			st.Fields = append([]FieldDesc{{Name: "ZzPorts", Exported: true, Kind: "v", Ty: "Lint", Tag: tag}}, st.Fields...)
+		}
 		g.addProgrammatic(cs)
 		g.addProgrammatic(cs)
 		if r.Intn(2) == 0 {
@@ -94,7 +114,12 @@ func checkC09Dispatch(c *Ctx, n int) {
 					"innermost_is_commander": isCommander, "command_handler_installed": cs.CmdHandler}
 				var ok bool
 				var want string
-				if needsSub {
+				if faulty != "" {
+					in["unconvertible_list_element"] = faulty
+					c.Class("c09/dispatch: list option with an unconvertible element")
+					want = "ErrMarshal, no Execute, no CommandHandler"
+					ok = o.errKind == "flags" && o.errType == int(flags.ErrMarshal) && nExec == 0 && nHandler == 0
+				} else if needsSub {
 					want = "ErrCommandRequired, no Execute, no CommandHandler"
 					ok = o.errKind == "flags" && o.errType == int(flags.ErrCommandRequired) && nExec == 0 && nHandler == 0
 				} else {
